@@ -1,6 +1,7 @@
 package main
 
 import (
+	"bufio"
 	"flag"
 	"fmt"
 	"os"
@@ -181,7 +182,18 @@ func cmdConc(fs *flag.FlagSet, args []string) {
 	nops := fs.Int("ops", 100, "operations per client")
 	yield := fs.Int("yield", 20, "percent chance of yielding at lock/commit events")
 	disksz := fs.Uint64("disk", 100000, "disk size")
+	imgPath := fs.String("imgout", "", "file the image of the logical disk after each history goes to (structure checker)")
 	fs.Parse(args)
+	var imgOut func(string)
+	if *imgPath != "" {
+		f, err := os.Create(*imgPath)
+		if err != nil {
+			die("imgout: %v", err)
+		}
+		iw := bufio.NewWriterSize(f, 1<<20)
+		defer func() { iw.Flush(); f.Close() }()
+		imgOut = func(l string) { iw.WriteString(l); iw.WriteByte('\n') }
+	}
 	root := NewRng(*seed)
 	fstxn.VerifObserver = concObserver
 	defer func() { fstxn.VerifObserver = nil }()
@@ -300,6 +312,16 @@ func cmdConc(fs *flag.FlagSet, args []string) {
 		close(stop)
 		for i := 0; i < 3000 && srv.VerifShrinker().VerifNthread() > 0; i++ {
 			time.Sleep(time.Millisecond)
+		}
+		if atomic.LoadInt32(&dead) == 0 && imgOut != nil {
+			srv.VerifFsState().Txn.Flush()
+			var moved []uint64
+			for _, c := range clients {
+				if c.s.crossRenames > 0 {
+					moved = []uint64{^uint64(0)}
+				}
+			}
+			emitImage(srv.VerifFsState(), fmt.Sprintf("end of concurrent history %d (%d clients)", h, *nclients), true, true, moved, imgOut)
 		}
 		if atomic.LoadInt32(&dead) == 0 {
 			srv.ShutdownNfs()
